@@ -76,6 +76,16 @@ pub fn step(ctx: &Ctx, w: &World, ev: &mut Ev) {
         None => return,
     };
     let own = ctx.model.prices.get(v).map(|recs| twap_output_ref(recs, pos.dir, pos.size.unsigned_abs(), 900, ctx.post.time, ctx.pre.vamms[v].decimals.max(1))).unwrap_or(TwapRef::Unknown);
+    // the statement does not say how the 15-minute average is rounded: when the engine's figure is within one unit of
+    // the harness's own (which truncates), it is a rounding of the same average and is taken instead; anything further
+    // away is a different average and the harness's own stands
+    let own = match (own, pq_field_u(ctx.preq, "pnl_twap", "position_notional")) {
+        (TwapRef::Value(tn), Some(en)) if tn != en && tn.abs_diff(en) <= 1 => {
+            ev.count("twap15_engine_figure_within_one_unit_taken");
+            TwapRef::Value(en)
+        }
+        (o, _) => o,
+    };
     let twap_ref: Option<Option<(U, i128)>> = match own {
         TwapRef::Value(tn) => pnl(pos.dir, tn, pos.notional).map(|tp| Some((tn, tp))),
         TwapRef::Unbounded => Some(None),
